@@ -28,6 +28,8 @@ func checkC15(c *Ctx) {
 	c.Expect("C15-R6", 1)
 	c.Rule("C15-R7", "only the capability is subject to padding: text of the application spliced into it (title, URL) is not searched for $<...> (a constant, base64, or written by a wrapper that strips the capability first)")
 	c.Expect("C15-R7", 2)
+	c.Rule("C15-R8", "the interpreter's binary operators are the ones the colour and addressing programs rely on (%< %> %= %- %+ ... : operand order, operator agreement); TColor and TGoto answer through them")
+	c.Expect("C15-R8", 10)
 	if err := tpSelfTest(); err != nil {
 		c.Undecided("C15-R2", "self-test", "-", err.Error())
 		return
@@ -46,6 +48,11 @@ func checkC15(c *Ctx) {
 	c15TPutsSegments(c, p)
 	if p.Tcell != nil {
 		checkTextNotPadded(c, p, "C15-R7")
+	}
+	if tp, dispatch := tparmDispatch(p); tp != nil && dispatch != nil {
+		c.asRule("C07-R2", "C15-R8", func() { c07BinOps(c, p, tp, dispatch) })
+	} else {
+		c.Undecided("C15-R8", "TParm:dispatch", "-", "operator switch not found")
 	}
 	if tp := p.Fn("terminfo:(*Terminfo).TParm"); tp != nil {
 		charOutputRule(c, p, tp, nil, "C15-R6")
